@@ -136,6 +136,15 @@ def run(ctx):
                                     'every lookup has its own window, evaluated against the clock and the bucket at that time')
     common.stateless_methods_clause(res, cg, 'C16', 'C16.g', fac0, ['iter_keys'],
                                     'the bounds of a listing belong to that listing alone (listings are lazy and may be consumed interleaved)')
+    ci16 = res.clause('C16.i', 'R-PROV', 'a value that can be iterated once (day folders, listings) has one reader', floor=1)
+    twice = [x for k_ in (repo.cls('S3TapeCassette'), repo.cls('S3BasicFacade')) for x in common.one_shot_results_read_twice(k_)]
+    ci16.instance('no method of the S3 cassette / facade reads a one-shot result twice', 'S3TapeCassette', not twice)
+    ci16.evaluations += 1
+    for m_, nm_, reads_, prod_ in twice[:1]:
+        res.add(Finding('C16', 'C16.i', 'R-PROV', m_.file, m_.qualname, reads_[0].lineno, '`%s` read %d times' % (nm_, len(reads_)),
+                        '`%s` comes from %s, which hands out a value that can be iterated only once, and %s reads it %d times (lines %s): whatever reads '
+                        'it first - a log line that joins it - leaves nothing for the listing, so the lookup returns no recordings' % (
+                            nm_, prod_.qualname, m_.qualname, len(reads_), ', '.join(str(r.lineno) for r in reads_))))
     common.import_clauses(ctx, res, 'C10', ['C10.a'], 'C16', 'C16.h', 'R-SIBLING', 'S3 listing prefixes are the category followed by the id delimiter (and a day folder)', floor=2)
     try:
         _run_rest(ctx, res)
@@ -519,8 +528,8 @@ def passthrough(repo, cas, fac):
     def reach(fn, depth):
         if depth > 6:
             return False
-        reassigned = any(isinstance(a, ast.Assign) and any(isinstance(t, ast.Name) and t.id in ('start_date', 'end_date') for t in a.targets)
-                         for a in walk_own(fn.node))
+        reassigned = any(isinstance(x, ast.Name) and x.id in ('start_date', 'end_date') and isinstance(x.ctx, (ast.Store, ast.Del))
+                         for x in walk_own(fn.node))      # any rebinding: plain, tuple target, augmented, loop / with target
         for n in ast.walk(fn.node):
             if not (isinstance(n, ast.Call) and isinstance(n.func, ast.Attribute)):
                 continue
